@@ -2,8 +2,6 @@ SPECIFICATION Spec
 CONSTANTS
   Tier = "quick"
   Emit = "all"
-  Laws = "all"
-INVARIANT InvRefLaws
-INVARIANT InvRefPermInvariant
-INVARIANT InvAlg
+  Laws = "c02"
+INVARIANT InvCase
 CHECK_DEADLOCK FALSE
